@@ -49,7 +49,10 @@ pub fn classes() -> &'static Vec<LexClass> {
             v.push(lc(&format!("punct:{p}"), p, kind));
         }
         v.push(lc("dim", "#dim", "DIM_KW"));
-        for id in ["a", "x1", "_x1", "foo_bar", "Z", "__a", "θ", "Δx", "变量", "été", "pragmatic", "pi", "OPENQASMx", "O", "p", "pr", "dimension", "inv2", "im", "dts", "e3", "b1", "xF", "ifx", "input1", "μs", "µs", "_q", "pragma2", "pragma_1", "void1", "π", "τ"] {
+        for id in ["a", "x1", "_x1", "foo_bar", "Z", "__a", "θ", "Δx", "变量", "été", "pragmatic", "pi", "OPENQASMx", "O", "p", "pr", "dimension", "inv2", "im", "dts", "e3", "b1", "xF", "ifx", "input1", "μs", "µs", "_q", "pragma2", "pragma_1", "void1", "π", "τ",
+            // characters that may continue an identifier but not start one: a combining mark (NFD spelling),
+            // non-ASCII digits, the middle dot, the undertie, an Indic vowel sign
+            "cafe\u{301}", "re\u{301}g", "x\u{663}", "q\u{ff11}", "col\u{b7}leccio", "a\u{203f}b", "\u{915}\u{93f}"] {
             v.push(lc(&format!("ident:{id}"), id, "IDENT"));
         }
         for h in ["$0", "$12"] {
@@ -57,12 +60,12 @@ pub fn classes() -> &'static Vec<LexClass> {
         }
         for n in [
             "0", "12", "1_000", "007", "9_", "0b101", "0B1_0", "0b_1", "0b1_", "0o17", "0O1_7", "0o_7", "0x1F", "0Xde_ad", "0xb", "0x1e3", "0xE", "0x_f",
-            "0XABCDEF", "0xabcdef", "0b0", "0o0", "0x0",
+            "0XABCDEF", "0xabcdef", "0b0", "0o0", "0x0", "0_1", "0_0", "00", "0_", "01", "0_1_2",
         ] {
             v.push(lc(&format!("int:{n}"), n, "INT_NUMBER"));
         }
         // float shapes: the full product of integer part x fraction x exponent marker/sign
-        for ip in ["", "1", "12_3", "0"] {
+        for ip in ["", "1", "12_3", "0", "0_1", "00"] {
             for fr in ["", ".", ".5", ".2_5"] {
                 for ex in ["", "e3", "E3", "e+3", "E+3", "e-3", "E-3", "e1_0", "E-1_0"] {
                     if fr.is_empty() && ex.is_empty() {
@@ -77,7 +80,7 @@ pub fn classes() -> &'static Vec<LexClass> {
                 }
             }
         }
-        for (num, kind) in [("10", "INT_NUMBER"), ("1.5", "FLOAT_NUMBER"), ("1.", "FLOAT_NUMBER"), ("12_3.", "FLOAT_NUMBER"), (".5", "FLOAT_NUMBER"), ("1e3", "FLOAT_NUMBER")] {
+        for (num, kind) in [("10", "INT_NUMBER"), ("1.5", "FLOAT_NUMBER"), ("1.", "FLOAT_NUMBER"), ("12_3.", "FLOAT_NUMBER"), (".5", "FLOAT_NUMBER"), ("1e3", "FLOAT_NUMBER"), ("0_1", "INT_NUMBER"), ("007", "INT_NUMBER"), ("0_5.25", "FLOAT_NUMBER"), ("0_1e3", "FLOAT_NUMBER")] {
             for u in UNITS.iter().chain(["im"].iter()) {
                 let text = format!("{num}{u}");
                 v.push(LexClass {
@@ -118,7 +121,9 @@ pub fn classes() -> &'static Vec<LexClass> {
 }
 
 fn identlike(c: char) -> bool {
-    c.is_alphanumeric() || c == '_'
+    // letters, digits, `_`, and the characters that may continue an identifier without being
+    // alphanumeric (combining marks, the middle dot, the undertie, Indic vowel signs)
+    c.is_alphanumeric() || c == '_' || matches!(c, '\u{300}'..='\u{36f}' | '\u{b7}' | '\u{203f}' | '\u{2040}' | '\u{93a}'..='\u{94f}')
 }
 
 /// Would `a` immediately followed by `b` (no separator) read as different lexemes?
